@@ -214,7 +214,13 @@ class CaseTimeout(BaseException):
     """wall-clock backstop for one case (exact arithmetic can blow up): the case is abandoned and counted, never a verdict"""
 
 
+ALARM = {"fired": False}
+
+
 def _alarm(signum, frame):
+    # the exception may be swallowed on its way up (numpy's sequence coercion does that) and leave half-built data
+    # behind, so the flag, not the exception, decides that the case is void
+    ALARM["fired"] = True
     raise CaseTimeout()
 
 
@@ -222,8 +228,23 @@ def run_one(mod, case, prop, tier, S, allow_trace=True):
     """run one case under the monitors; returns (ctx, internal_error or None)"""
     from . import attach
 
+    import signal
+
+    limit = getattr(mod, "CASE_TIMEOUT", {"quick": 90, "thorough": 400})[tier]
+    signal.signal(signal.SIGALRM, _alarm)
     setup_case(None)
-    primed = prime(mod, case, prop, tier)
+    # the float twin runs without monitors (no step budget): it gets the same wall-clock backstop as the case itself
+    signal.setitimer(signal.ITIMER_REAL, limit)
+    try:
+        try:
+            primed = prime(mod, case, prop, tier)
+        finally:
+            signal.setitimer(signal.ITIMER_REAL, 0)
+    except CaseTimeout:
+        primed = False
+        attach.S.depth = 0
+        attach.S.enabled = True
+        attach.drain_violations()
     setup_case(case)
     ctx = Ctx(prop, tier)
     if case.get("mixed_ints") if isinstance(case, dict) else False:
@@ -238,10 +259,8 @@ def run_one(mod, case, prop, tier, S, allow_trace=True):
     attach.drain_violations()
     err = None
     attach.S.trace = [] if traced else None
-    import signal
-
-    limit = getattr(mod, "CASE_TIMEOUT", {"quick": 150, "thorough": 400})[tier]
-    signal.signal(signal.SIGALRM, _alarm)
+    ALARM["fired"] = False
+    hits0 = attach.S.budget_hits
     signal.setitimer(signal.ITIMER_REAL, limit)
     try:
         try:
@@ -249,19 +268,39 @@ def run_one(mod, case, prop, tier, S, allow_trace=True):
             ctx.verify_watched()
         finally:
             signal.setitimer(signal.ITIMER_REAL, 0)
+        if ALARM["fired"]:
+            raise CaseTimeout()
     except CaseTimeout:
+        # void case: whatever was reported after the interruption may be an artefact of the interruption itself
+        ctx.violations = []
+        attach.drain_violations()
         # inconclusive for this case only: what was observed before stays, nothing is concluded from the abandonment
         ctx.count("case_timeouts")
         attach.S.depth = 0
         attach.S.enabled = True
         traced = False
     except Exception:
-        err = traceback.format_exc(limit=8)
+        if ALARM["fired"]:
+            ctx.violations = []
+            attach.drain_violations()
+            ctx.count("case_timeouts")
+            attach.S.depth = 0
+            attach.S.enabled = True
+            traced = False
+        else:
+            err = traceback.format_exc(limit=8)
     except BaseException as e:  # StepBudgetExceeded escaping a check = the check forgot lib.call: internal
         if type(e).__name__ != "StepBudgetExceeded":
             raise
         err = "StepBudgetExceeded escaped the check: " + traceback.format_exc(limit=6)
     trace, attach.S.trace = attach.S.trace, None
+    if attach.S.budget_hits > hits0:
+        # the monitor injected StepBudgetExceeded into library code: a multi-step mutator interrupted that way is left half
+        # done by construction, so only the termination verdicts of this case stand
+        ctx.count("step_budget_cases")
+        ctx.violations = [v for v in ctx.violations if "StepBudget" in v["key"] or "no-termination" in v["key"]]
+        attach.drain_violations()
+        traced = False
     if traced and err is None and trace is not None:
         # history-independence monitor: every value the public API returned during this case (which ran after many other
         # cases in this process) must be bit-identical to what a fresh interpreter returns for the same case
@@ -305,6 +344,10 @@ def main(argv):
     }
     perkey = Counter()
     digests = set()
+    from . import gen
+
+    large = getattr(mod, "LARGE", 0.0)
+    gen.LARGE_P, gen.LARGE_MAX = large if isinstance(large, tuple) else (large, 64)
     for idx in range(shard, ncases, nshards):
         if time.time() - t0 > deadline:
             rep["skipped_deadline"] += 1
